@@ -658,7 +658,8 @@ class TemplateModel(object):
                 samples = self._read_array(samples_path)
             else:
                 logger.info("Loading spikes.times.npy in seconds, converting to samples.")
-                samples = np.round(times * self.sample_rate).astype(np.uint64)
+                # NOTE: multiply in double precision (single-precision times late in a recording).
+                samples = np.round(times.astype(np.float64) * self.sample_rate).astype(np.uint64)
         assert samples.ndim == times.ndim == 1
         return samples, times
 
